@@ -262,6 +262,24 @@ class Body:
                     pass
             for a in range(1, self.argc + 1):
                 d[a].append(("arg", a))
+            # blocks duplicated by jump threading (analysis/inline.py) repeat definitions verbatim: a copy of a
+            # definition is the same definition, not a second one
+            for l, ds in d.items():
+                if len(ds) < 2:
+                    continue
+                keep = []
+                seen = []
+                for x in sorted(ds, key=lambda x: (bool(self.blocks[x[1]].get("threaded")) if x[0] != "arg" else False)):
+                    if x[0] in ("assign", "call") and self.blocks[x[1]].get("threaded"):
+                        sig = json.dumps(x[3] if x[0] == "assign" else {"c": x[2]["callee"]["path"], "a": x[2]["args"]}, sort_keys=True)
+                        if sig in seen:
+                            continue
+                    if x[0] == "assign":
+                        seen.append(json.dumps(x[3], sort_keys=True))
+                    elif x[0] == "call":
+                        seen.append(json.dumps({"c": x[2]["callee"]["path"], "a": x[2]["args"]}, sort_keys=True))
+                    keep.append(x)
+                d[l] = keep
             self._defs = d
         return self._defs.get(local, [])
 
